@@ -176,7 +176,7 @@ def verifyPartial (s : Nat) (pubNonce aggNonce : Bytes) (keys : List Point) (pk 
 /-- `Sign` after its `AggregateKeys` call returned `ak` (not in fast-sign mode: the partial signature is
     verified before it is returned). Returns (s, R). -/
 def signWith (ak : AggKey) (secNonce : Bytes) (d : Nat) (aggNonce : Bytes) (keys : List Point) (msg : Bytes)
-    (sort : Bool) : Option (Nat × Point) :=
+    (sort : Bool) (fast : Bool := false) : Option (Nat × Point) :=
   let pub := mulG d
   let keys' := if sort then sortKeys keys else keys
   let kh := keyHashFingerprint keys sort
@@ -195,6 +195,7 @@ def signWith (ak : AggKey) (secNonce : Bytes) (d : Nat) (aggNonce : Bytes) (keys
     let a := aggregationCoefficient sk pub kh
     let s := sadd (sadd k1' (smul k2' b)) (smul (smul e a) d')
     let pubNonce := serializeCompressed (mulG k1) ++ serializeCompressed (mulG k2)
+    if fast then some (s, r) else   -- WithFastSign: no self-verification
     if verifyPartialWith ak s pubNonce aggNonce keys (serializeCompressed pub) msg sort then some (s, r) else none
 
 /-- the two entry checks of `Sign`: the secnonce carries the signer's key; the key is in the signer set -/
@@ -203,11 +204,11 @@ def signChecks (secNonce : Bytes) (d : Nat) (keys : List Point) : Bool :=
 
 /-- `Sign` -/
 def sign (secNonce : Bytes) (d : Nat) (aggNonce : Bytes) (keys : List Point) (msg : Bytes)
-    (sort : Bool) (tw : TweakOpt) : Option (Nat × Point) :=
+    (sort : Bool) (tw : TweakOpt) (fast : Bool := false) : Option (Nat × Point) :=
   if !signChecks secNonce d keys then none else
   match aggregateKeys keys sort tw with
   | none => none
-  | some ak => signWith ak secNonce d aggNonce keys msg sort
+  | some ak => signWith ak secNonce d aggNonce keys msg sort fast
 
 /-- the tweak correction term of `CombineSigs` once `AggregateKeys` returned `ak` -/
 def combineWith (ak : AggKey) (r : Point) (ss : List Nat) (msg : Bytes) : Nat × Nat :=
